@@ -172,10 +172,13 @@ func upgrade175Driver(cfg Config, out *Out) error {
 			return nil
 		})
 	}
+	if cfg.N > 3 {
+		cfg.N = 3 // each case is expensive (hundreds of contract deployments and redeems)
+	}
 	for i := 0; i < cfg.N; i++ {
 		in := upInput{Holders: 300, Trials: 6}
 		if cfg.Tier == "thorough" {
-			in = upInput{Holders: []int{400, 150, 600}[i%3], Trials: 24}
+			in = upInput{Holders: []int{400, 150, 600}[i%3], Trials: 12}
 		}
 		out.Emit(upRunCase(fmt.Sprintf("s%d-%d", cfg.Seed, i), in))
 	}
